@@ -498,7 +498,7 @@ contract(
                                            "forall(0, len(result), lambda j: implies(j + 1 < len(result), src_[j + 1][0] <= src_[j][0] + 1))")
                                           .replace("LOJ", _LOJ).replace("LENJ", _LENJ).replace("out_", "result")),
              ],
-    props=("C16",), domain="skip", ghost=dict(eager_triggers=True),
+    props=("C16",), domain="skip", ghost=dict(eager_triggers=True, result_is_field=("self", "gene_items")),
     canaries=[("last_bin_left_out", "end_idx = gene_idx[-1] + 1", "end_idx = gene_idx[-1]"),
               ("cursor_not_advanced", "prev_idx = end_idx", "prev_idx = start_idx"),
               ("telomere_dropped", "if prev_idx < len(subgary):", "if prev_idx < len(subgary) - 1:"),
@@ -517,3 +517,87 @@ def _with_needs(c, loop, needs):
 _BYG = CONTRACTS["cnvlib/cnary.py::CopyNumArray.by_gene"]
 _with_needs(_BYG, 1, {'items_are_slices': ['cursor', 'iterating_the_gene_map'], 'cursor': [], 'tiling': ['cursor', 'iterating_the_gene_map', 'covered_up_to_cursor', 'handled_below_cursor'], 'antitarget_items_hold_ignored_names': ['cursor', 'iterating_the_gene_map', 'handled_genes_lie_below_cursor', 'handled_below_cursor'], 'gene_items_span_first_to_last_bin': ['cursor', 'iterating_the_gene_map', 'items_are_slices'], 'covered_up_to_cursor': ['cursor', 'iterating_the_gene_map', 'handled_below_cursor'], 'no_chromosome_skipped': [], 'handled_below_cursor': ['cursor', 'iterating_the_gene_map'], 'handled_genes_lie_below_cursor': ['cursor', 'iterating_the_gene_map', 'handled_below_cursor'], 'iterating_the_gene_map': []})
 _with_needs(_BYG, 0, {'items_are_slices': ['cursor'], 'tiling': ['covered_up_to_cursor', 'cursor'], 'antitarget_items_hold_ignored_names': ['cursor', 'iterating_the_gene_map', 'handled_genes_lie_below_cursor', 'handled_below_cursor'], 'gene_items_span_first_to_last_bin': ['cursor', 'items_are_slices'], 'chromosomes_done_are_complete': ['covered_up_to_cursor', 'no_chromosome_skipped', 'cursor', 'tiling']})
+
+
+# ----------------------------------------------------------------------------- deductive: genemetrics without segments
+# group_by_genes turns each named item of the gene-wise iteration into one summary row; gene_metrics_by_gene keeps the
+# rows whose weighted mean reaches the threshold.  Each is proved against the (proved) contract of the generator it
+# consumes, whose output is modelled as a ghost field of the array (gene_items, gene_rows).
+_WB = ObjT("CopyNumArray", data=TabT(index="any", chromosome=CHROM, start=Int, end=Int, gene=GENE, log2=Real, depth=Real, weight=Real),
+           meta=DictT())
+_WARR = ObjT("CopyNumArray", data=TabT(index="any", chromosome=CHROM, start=Int, end=Int, gene=GENE, log2=Real, depth=Real, weight=Real),
+             meta=DictT(), gene_items=SeqT(TupT(GENE, _WB)), groups=SeqT(TupT(CHROM, _WB)))
+_GROW = RecT("Series", chromosome=CHROM, start=Int, end=Int, gene=GENE, log2=NReal, depth=Real, weight=Real, probes=Int)
+_IT = "cnarr.gene_items[i]"
+
+_RW = "cnarr.gene_items[i][1].data"
+_SKIP = "('', 'Antitarget', 'Background')"
+# the row reported for item i of the gene-wise iteration
+_GROWSPEC = ("(out_[j].gene == cnarr.gene_items[i][0] and out_[j].chromosome == RW.chromosome[0] and out_[j].start == RW.start[0] and "
+             "out_[j].end == RW.end[len(RW) - 1] and out_[j].probes == len(RW) and out_[j].weight == sumof(RW.weight) and "
+             "out_[j].depth == sumof(Vec(len(RW), lambda k: RW.depth[k] * RW.weight[k])) / sumof(RW.weight) and "
+             "not isnull(out_[j].log2) and val(out_[j].log2) == sumof(Vec(len(RW), lambda k: RW.log2[k] * RW.weight[k])) / sumof(RW.weight))"
+             ).replace("RW", _RW)
+_REPORTED = "(cnarr.gene_items[i][0] not in SKIP and len(RW) >= 1)".replace("SKIP", _SKIP).replace("RW", _RW)
+
+contract(
+    "cnvlib/reports.py::group_by_genes",
+    params=dict(cnarr=_WARR, skip_low=Lit(False)),
+    yields=_GROW,
+    requires=[_CONSEC.replace("self.", "cnarr."),
+              "forall(0, len(cnarr.gene_items), lambda i: forall(0, len(IT[1].data), lambda k: IT[1].data.weight[k] > 0))".replace("IT", _IT)],
+    loops={0: dict(inv=[
+        ("rows_summarise_their_gene", "forall(0, len(out_), lambda j: let(lambda i: 0 <= i and i < i_ and REPORTED and GROWSPEC, src_[j][0]))"
+                                      .replace("REPORTED", _REPORTED).replace("GROWSPEC", _GROWSPEC)),
+        ("in_order", "forall(0, len(out_), lambda a: forall(0, len(out_), lambda b: implies(a < b, src_[a][0] < src_[b][0])))"),
+        ("every_named_gene_reported", "forall(0, i_, lambda i: implies(REPORTED, exists(0, len(out_), lambda j: src_[j][0] == i)))"
+                                      .replace("REPORTED", _REPORTED)),
+    ])},
+    ensures=[
+        # one row per named gene of the gene-wise iteration, in order: the gene's first start, last end, bin count, summed
+        # weight, weight-averaged depth and weighted mean log2
+        ("rows_summarise_their_gene", "forall(0, len(result), lambda j: let(lambda i: 0 <= i and i < len(cnarr.gene_items) and REPORTED and GROWSPEC, src_[j][0]))"
+                                      .replace("REPORTED", _REPORTED).replace("GROWSPEC", _GROWSPEC.replace("out_", "result"))),
+        ("in_order", "forall(0, len(result), lambda a: forall(0, len(result), lambda b: implies(a < b, src_[a][0] < src_[b][0])))"),
+        ("every_named_gene_reported", "forall(0, len(cnarr.gene_items), lambda i: implies(REPORTED, exists(0, len(result), lambda j: src_[j][0] == i)))"
+                                      .replace("REPORTED", _REPORTED)),
+    ],
+    props=("C16",), domain="skip",
+    ghost=dict(eager_triggers=True, callee_clauses={"cnvlib/cnary.py::CopyNumArray.by_gene": []},
+               result_is_field=("cnarr", "gene_rows")),
+    canaries=[("end_of_first_bin", 'outrow["end"] = rows.end.iat[-1]', 'outrow["end"] = rows.end.iat[0]'),
+              ("weight_of_first_bin", 'outrow["weight"] = rows["weight"].sum()', 'outrow["weight"] = rows["weight"].iat[0]'),
+              ("unweighted_depth", 'np.average(rows["depth"], weights=rows["weight"])', 'rows["depth"].mean()'),
+              ("antitarget_reported", "if not rows or gene in ignore:", "if not rows:")],
+    notes="verified for skip_low=False and positive bin weights; the gene-wise iteration is the ghost field cnarr.gene_items "
+          "(= what by_gene yields, itself proved)",
+)
+
+
+_RARR = ObjT("CopyNumArray", data=TabT(index="any", chromosome=CHROM, start=Int, end=Int, gene=GENE, log2=Real, depth=Real, weight=Real),
+             meta=DictT(), gene_items=SeqT(TupT(GENE, _WB)), groups=SeqT(TupT(CHROM, _WB)), gene_rows=SeqT(_GROW))
+_KEPT = "(abs(val(cnarr.gene_rows[i].log2)) >= threshold and cnarr.gene_rows[i].gene != '')"
+
+contract(
+    "cnvlib/reports.py::gene_metrics_by_gene",
+    params=dict(cnarr=_RARR, threshold=Real, skip_low=Lit(False)),
+    yields=_GROW,
+    requires=CONTRACTS["cnvlib/reports.py::group_by_genes"].requires +
+             ["forall(0, len(cnarr.gene_rows), lambda i: not isnull(cnarr.gene_rows[i].log2))"],
+    loops={0: dict(inv=[
+        ("rows_reach_the_threshold", "forall(0, len(out_), lambda j: let(lambda i: 0 <= i and i < i_ and KEPT and out_[j] == cnarr.gene_rows[i], src_[j][0]))".replace("KEPT", _KEPT)),
+        ("in_order", "forall(0, len(out_), lambda a: forall(0, len(out_), lambda b: implies(a < b, src_[a][0] < src_[b][0])))"),
+        ("every_such_gene_reported", "forall(0, i_, lambda i: implies(KEPT, exists(0, len(out_), lambda j: src_[j][0] == i)))".replace("KEPT", _KEPT)),
+    ])},
+    ensures=[
+        # exactly the gene rows whose weighted mean log2 reaches the threshold, unchanged and in order
+        ("rows_reach_the_threshold", "forall(0, len(result), lambda j: let(lambda i: 0 <= i and i < len(cnarr.gene_rows) and KEPT and result[j] == cnarr.gene_rows[i], src_[j][0]))".replace("KEPT", _KEPT)),
+        ("in_order", "forall(0, len(result), lambda a: forall(0, len(result), lambda b: implies(a < b, src_[a][0] < src_[b][0])))"),
+        ("every_such_gene_reported", "forall(0, len(cnarr.gene_rows), lambda i: implies(KEPT, exists(0, len(result), lambda j: src_[j][0] == i)))".replace("KEPT", _KEPT)),
+    ],
+    props=("C16",), domain="skip",
+    ghost=dict(eager_triggers=True, callee_clauses={"cnvlib/reports.py::group_by_genes": []}),
+    canaries=[("strictly_above", "abs(row.log2) >= threshold", "abs(row.log2) > threshold"),
+              ("gains_only", "abs(row.log2) >= threshold", "row.log2 >= threshold")],
+    notes="the gene rows are the ghost field cnarr.gene_rows (= what group_by_genes yields, itself proved)",
+)
